@@ -25,8 +25,10 @@
    For a TEMPORARY argument the elision only changes who frees the temporary (the caller's scope
    exit instead of the callee's exit); nothing else can refer to a temporary, so the model lets the
    callee own it in both modes and elides only arguments that are variables.
-   In elide mode a skipped copy still draws a location (a dummy `Freed` cell nobody refers to) so
-   that both semantics name later buffers alike; locations are not observable. *)
+   An elided parameter is a handle cell `Alias l` on the caller's buffer l (the emitted code copies
+   the Text/list struct, not the buffer): reads, in-place writes and an explicit free (assignment to
+   the parameter) go through to l, the function exit leaves l alone, and if l is freed or
+   reallocated by someone else the handle dangles. *)
 From Coq Require Import List ZArith Bool Arith Lia.
 Import ListNotations.
 
@@ -122,7 +124,9 @@ Definition analyse (fs : list fundecl) : meta := an_funs [] fs.
 (* ---------------------------------------------------------------------------------------------- *)
 (* machine                                                                                         *)
 (* ---------------------------------------------------------------------------------------------- *)
-Inductive cell := Live (c : list Z) | Freed.
+(* a buffer, a shallow handle on another holder's buffer (what an elided parameter is: the callee's
+   copy of the Text/list STRUCT, pointing to the caller's buffer), or a freed location *)
+Inductive cell := Live (c : list Z) | Alias (l : nat) | Freed.
 Inductive slot := VInt (z : Z) | VPtr (l : nat) | VDead.
 Inductive err :=
 | EStuck         (* ill-formed program (unknown name, wrong kind of value) *)
@@ -162,23 +166,41 @@ Definition add_out (st : state) (o : outv) := mkSt (vars st) (heap st) (tmps st)
 
 Definition alloc (c : cell) (st : state) : nat * state :=
   (length (heap st), set_heap st (heap st ++ [c])).
+(* the buffer a location stands for *)
+Definition target (l : nat) (st : state) : nat :=
+  match nth_error (heap st) l with Some (Alias t) => t | _ => l end.
 Definition read (l : nat) (st : state) : res (list Z) :=
-  match nth_error (heap st) l with
+  match nth_error (heap st) (target l st) with
   | Some (Live c) => Ok c
-  | Some Freed => Er EUaf
+  | Some _ => Er EUaf
   | None => Er EStuck
   end.
 Definition write (l : nat) (c : list Z) (st : state) : res state :=
-  match nth_error (heap st) l with
-  | Some (Live _) => Ok (set_heap st (upd (heap st) l (Live c)))
-  | Some Freed => Er EUaf
+  match nth_error (heap st) (target l st) with
+  | Some (Live _) => Ok (set_heap st (upd (heap st) (target l st) (Live c)))
+  | Some _ => Er EUaf
   | None => Er EStuck
   end.
+(* the emitted free function frees the buffer the struct points to: through a handle that is the
+   CALLER's buffer *)
 Definition free (l : nat) (st : state) : res state :=
   match nth_error (heap st) l with
   | Some (Live _) => Ok (set_heap st (upd (heap st) l Freed))
+  | Some (Alias t) =>
+      match nth_error (heap st) t with
+      | Some (Live _) => Ok (set_heap st (upd (upd (heap st) t Freed) l Freed))
+      | Some _ => Er EUaf
+      | None => Er EStuck
+      end
   | Some Freed => Er EUaf
   | None => Er EStuck
+  end.
+(* exitFuncScope: a parameter that is still the handle it was bound to is NOT freed (only the
+   handle disappears with the frame); everything else is freed *)
+Definition release (l : nat) (st : state) : res state :=
+  match nth_error (heap st) l with
+  | Some (Alias _) => Ok (set_heap st (upd (heap st) l Freed))
+  | _ => free l st
   end.
 Definition new_var (s : slot) (st : state) : nat * state :=
   (length (vars st), set_vars st (vars st ++ [s])).
@@ -360,16 +382,16 @@ Section Exec.
   Variable genv : env.         (* global variables, visible in every function *)
 
   (* caller side of a call: bind the parameters of function f in order; returns the callee's
-     environment, the parameter addresses the callee must NOT free (elided), and the state *)
+     environment and the state *)
   Fixpoint bind_params (f i : nat) (ps : list param) (args : list arg) (e : env)
-           (ce : env) (borrowed : list nat) (st : state) : res (env * list nat * state) :=
+           (ce : env) (st : state) : res (env * state) :=
     match ps, args with
-    | [], [] => Ok (ce, borrowed, st)
+    | [], [] => Ok (ce, st)
     | p :: ps', a :: args' =>
         match pref p, a with
         | true, ARef x =>
             match lookup e x with
-            | Some ad => bind_params f (S i) ps' args' e ((pname p, ad) :: ce) borrowed st
+            | Some ad => bind_params f (S i) ps' args' e ((pname p, ad) :: ce) st
             | None => Er EStuck
             end
         | false, AVal ex =>
@@ -378,40 +400,39 @@ Section Exec.
             match v with
             | RInt z =>
                 let '(ad, st2) := new_var (VInt z) st1 in
-                bind_params f (S i) ps' args' e ((pname p, ad) :: ce) borrowed st2
+                bind_params f (S i) ps' args' e ((pname p, ad) :: ce) st2
             | RSeq l tmp =>
                 if elide && is_const mt f i && negb tmp then
-                  (* val = eval: the callee works on the caller's buffer (the dummy cell only
-                     keeps the numbering of later locations equal to copy mode) *)
-                  let st1' := snd (alloc Freed st1) in
-                  let '(ad, st2) := new_var (VPtr l) st1' in
-                  bind_params f (S i) ps' args' e ((pname p, ad) :: ce) (ad :: borrowed) st2
+                  (* val = eval: the callee's parameter is a shallow handle on the caller's buffer *)
+                  let '(lh, st1') := alloc (Alias (target l st1)) st1 in
+                  let '(ad, st2) := new_var (VPtr lh) st1' in
+                  bind_params f (S i) ps' args' e ((pname p, ad) :: ce) st2
                 else
                   do r2 <- claim_or_copy l tmp st1;
                   let '(l', st2) := r2 in
                   let '(ad, st3) := new_var (VPtr l') st2 in
-                  bind_params f (S i) ps' args' e ((pname p, ad) :: ce) borrowed st3
+                  bind_params f (S i) ps' args' e ((pname p, ad) :: ce) st3
             end
         | _, _ => Er EStuck
         end
     | _, _ => Er EStuck
     end.
 
-  (* exitFuncScope + scope exits: every variable created since `base` is dead afterwards; its
-     buffer is freed unless the variable is an elided parameter *)
-  Fixpoint exit_from (n : nat) (a : nat) (borrowed : list nat) (st : state) : res state :=
+  (* exitFuncScope + scope exits: every variable created since `base` is dead afterwards and what it
+     holds is released — for an elided parameter that is the handle, not the caller's buffer *)
+  Fixpoint exit_from (n : nat) (a : nat) (st : state) : res state :=
     match n with
     | O => Ok st
     | S n' =>
         do s <- get_slot a st;
         do st1 <- match s with
-                  | VPtr l => if existsb (Nat.eqb a) borrowed then Ok st else free l st
+                  | VPtr l => release l st
                   | _ => Ok st
                   end;
-        exit_from n' (S a) borrowed (set_slot a VDead st1)
+        exit_from n' (S a) (set_slot a VDead st1)
     end.
-  Definition exit_frame (base : nat) (borrowed : list nat) (st : state) : res state :=
-    exit_from (length (vars st) - base) base borrowed st.
+  Definition exit_frame (base : nat) (st : state) : res state :=
+    exit_from (length (vars st) - base) base st.
 
   Definition do_call (ex : env -> list stmt -> state -> res state)
              (e : env) (dst : option name) (f : nat) (args : list arg) (st : state) : res state :=
@@ -419,8 +440,8 @@ Section Exec.
     | None => Er EStuck
     | Some fd =>
         let base := length (vars st) in
-        do r <- bind_params f 0 (fparams fd) args e genv [] st;
-        let '(ce, borrowed, st1) := r in
+        do r <- bind_params f 0 (fparams fd) args e genv st;
+        let '(ce, st1) := r in
         let saved := tmps st1 in
         do st2 <- ex ce (fbody fd) (set_tmps st1 []);
         (* Gib e zurück: claim or copy into the return slot, then leave the scopes *)
@@ -439,7 +460,7 @@ Section Exec.
                      end
                  end;
         let '(result, st6) := r2 in
-        do st7 <- exit_frame base borrowed st6;
+        do st7 <- exit_frame base st6;
         let st8 := set_tmps st7 saved in
         let st9 := match result with Some (RSeq l _) => add_tmp l st8 | _ => st8 end in
         match dst, result with
